@@ -27,16 +27,6 @@ TEXTRA = {
     "core::str::parse": [((OK, F0), 0, ())],
     "std::slice::to_vec": [((), 0, ())], "core::slice::to_vec": [((), 0, ())],
 }
-LEN_PARSER = {"name": None}      # the private length-field parser, found by role (find_length_parser)
-STOP = lambda t: callee_name(t) in ("core::slice::get", LEN_PARSER["name"], "core::slice::splitn", "core::slice::strip_prefix")
-
-
-def find_length_parser(fx, cg, unpack):
-    """The decoder's length-field parser, by role: the local function, reachable from pae_unpack, that returns
-    Result<(usize, &[u8]), _> (a parsed length and the rest of the input)."""
-    c = [fx.fns[k] for k in cg.reachable([unpack["key"]]) if k != unpack["key"] and fx.fns[k]["kind"] in ("Fn", "AssocFn")
-         and fx.fns[k]["locals"][0]["ty"].replace(" ", "").startswith("std::result::Result<(usize,&")]
-    return c[0] if len(c) == 1 else None
 
 
 def find(fx, suffix):
@@ -53,14 +43,11 @@ def run(ctx):
     fx = ctx.fx
     pack = find(fx, "DSSEParser>::pae_pack")
     unpack = find(fx, "DSSEParser>::pae_unpack")
-    cons = find_length_parser(fx, ctx.cg, unpack) if unpack else None
-    LEN_PARSER["name"] = cons["path"] if cons else None
     if not pack or not unpack:
         ctx.bad("C20/D1", "anchors", "PaeV1::pae_pack / pae_unpack not found (failing closed)")
         return
     # ---------------- D1 pack
-    POLICY = ("private-except", frozenset([LEN_PARSER["name"]]))
-    pb = ctx.region(None, policy=POLICY, key=pack["key"], ps=True)
+    pb = ctx.region(None, policy="private", key=pack["key"], ps=True)
     consts = {"prefix": None, "sep": None}
 
     def classify(lv):
@@ -144,15 +131,33 @@ def run(ctx):
             detail = "header.into_bytes() extended once by the payload parameter itself: %s; the vector starts as the formatted header: %s" % (payload_direct, header_from_format)
     if not parts_form:
         ctx.inst("C20/D1", "payload appended verbatim after the header", okc, detail, pack["at"])
-    # ---------------- D2 unpack
-    ub = ctx.region(None, policy=POLICY, key=unpack["key"], ps=True)
-    cons_calls = ub.calls_named(LEN_PARSER["name"]) if LEN_PARSER["name"] else []
-    ctx.inst("C20/D2", "two length fields are parsed", len(cons_calls) == 2, "%d call(s) of the length parser" % len(cons_calls), unpack["at"])
-    if len(cons_calls) != 2:
+    # ---------------- D2 unpack (judged in the decoder's region: every private helper - the length parser, a cursor type -
+    # inlined; the anchors are the splits at the separator, not the functions they are written in)
+    ub = ctx.region(None, policy="private", key=unpack["key"], ps=True)
+    SPLITN = "core::slice::splitn"
+    STOP2 = lambda t: callee_name(t) in ("core::slice::get", SPLITN, "core::slice::strip_prefix", "core::num::checked_add")
+    splits = ub.calls_named(SPLITN)
+    ctx.inst("C20/D2", "two length fields are parsed", len(splits) == 2, "%d split(s) at the separator in the decoder (helpers inlined)" % len(splits), unpack["at"])
+    if len(splits) != 2:
         return
-    (c1, t1), (c2, t2) = sorted(cons_calls)
+
+    def split_of(x, path=()):
+        """The split(s) a value is a piece of (through from_utf8 / parse / ? only); None if anything else contributes."""
+        lv = ub.trace(x, path, STOP2, TEXTRA)
+        if not lv or not all(l.kind == "call" and callee_name(l.data[1]) == SPLITN and l.path == (ELEM,) and via_ok(l) for l in lv):
+            return None
+        return {l.data[0] for l in lv}
+
+    def is_len(x, sbb):
+        """x is parse::<usize>(from_utf8(piece of split sbb))"""
+        lv = ub.trace(x, (), lambda t: callee_name(t) == "core::str::parse" or STOP2(t), TEXTRA)
+        if not lv or not all(l.kind == "call" and callee_name(l.data[1]) == "core::str::parse" and l.path == (OK, F0) and via_ok(l)
+                             and "usize" in " ".join(l.data[1].get("generics", [])) for l in lv):
+            return False
+        return all(split_of(l.data[1]["args"][0]) == {sbb} for l in lv)
+
     def get_leaf(path, what):
-        lv = ub.trace({"l": 0, "p": []}, path, STOP, TEXTRA)
+        lv = ub.trace({"l": 0, "p": []}, path, STOP2, TEXTRA)
         if len(lv) != 1 or lv[0].kind != "call" or callee_name(lv[0].data[1]) != "core::slice::get" or lv[0].path != (SOME, F0):
             ctx.bad("C20/D2", what + " is a checked sub-slice", "%s <- {%s}" % (what, ", ".join(leaf_s(ub, l) for l in lv)), unpack["at"])
             return None
@@ -160,96 +165,74 @@ def run(ctx):
             ctx.bad("C20/D2", what + " is returned untransformed", "%s passes through %s" % (what, [v for v in lv[0].via]), unpack["at"])
             return None
         ctx.ok("C20/D2", what + " is returned untransformed", "%s <- get(..) via %s" % (what, list(lv[0].via)), unpack["at"])
-        return lv[0].data[1]
-    def range_of(gt):
-        p = op_place(gt["args"][1])
-        d = ub.single_def(p["l"]) if p is not None and not p["p"] else None
-        if d and d.kind == "assign" and d.node["rv"].get("agg") == "adt":
-            rv = d.node["rv"]
-            return rv["adt"].split("::")[-1], dict(zip(rv["fields"], rv["ops"]))
-        return None, {}
-    def is_cons(op, ci, which):
-        r = root_ids(ub, op)
-        return r == frozenset([("call", ci, (OK, F0, which))])
-    for (what, path, ci) in (("type", (OK, F0, F1), c1), ("payload", (OK, F0, F0), c2)):
-        gt = get_leaf(path, what)
-        if gt is None:
+        return lv[0].data
+
+    def range_of(gbb, gt):
+        lv = ub.trace(gt["args"][1], (), None, None, False, None, (), (gbb, 10 ** 9))
+        if len(lv) == 1 and lv[0].kind == "agg" and lv[0].data[2].get("agg") == "adt":
+            rv = lv[0].data[2]
+            return rv["adt"].split("::")[-1], dict(zip(rv["fields"], rv["ops"])), (lv[0].data[0], lv[0].data[1])
+        return None, {}, None
+
+    field_split = {}
+    for (what, path) in (("type", (OK, F0, F1)), ("payload", (OK, F0, F0))):
+        g = get_leaf(path, what)
+        if g is None:
             continue
-        kind, fl = range_of(gt)
+        gbb, gt = g
+        kind, fl, _at = range_of(gbb, gt)
         start0 = (kind == "Range" and const_int(ub, fl.get("start")) == 0) or kind == "RangeTo"
-        okr = start0 and is_cons(fl.get("end"), ci, F0) and is_cons(gt["args"][0], ci, F1)
+        rs = split_of(gt["args"][0])
+        one = rs is not None and len(rs) == 1
+        okr = start0 and one and fl.get("end") is not None and is_len(fl["end"], next(iter(rs)))
+        if one:
+            field_split[what] = next(iter(rs))
         ctx.inst("C20/D2", "%s = rest[0..len] of the same length field" % what, okr,
-                 "get(%s, %s{start: %s, end: %s})" % ({str(x) for x in root_ids(ub, gt["args"][0])}, kind,
-                                                       const_int(ub, fl.get("start")) if fl.get("start") else None,
-                                                       {str(x) for x in root_ids(ub, fl["end"])} if fl.get("end") else None), gt["at"])
-    # second parser call consumes rest1[n1+1..]
-    lv = ub.trace(t2["args"][0], (), STOP, TEXTRA)
+                 "get(rest, %s): starts at 0: %s; `rest` is the piece behind one separator split: %s; the end is the decimal usize parsed "
+                 "from the piece in front of that same split: %s" % (kind, start0, one, okr), gt["at"])
+    s1, s2 = field_split.get("type"), field_split.get("payload")
+    ctx.inst("C20/D2", "type and payload come from different length fields", s1 is not None and s2 is not None and s1 != s2,
+             "splits: type %s, payload %s" % (s1, s2), unpack["at"])
+    if s1 is None or s2 is None or s1 == s2:
+        return
+    t2 = ub.blocks[s2]["term"]
+    # the second split works on rest1[n1+1..]
+    lv = ub.trace(t2["args"][0], (), STOP2, TEXTRA, False, None, (), (s2, 10 ** 9))
     ok2 = False
     detail = "second length field parsed from {%s}" % ", ".join(leaf_s(ub, l) for l in lv)
-    # the argument may come through Option::and_then(|start| raw.get(start..)): follow the closure
-    for lf in lv:
-        if lf.kind == "call" and callee_name(lf.data[1]) == "core::slice::get":
-            kind, fl = range_of(lf.data[1])
+    if lv and all(l.kind == "call" and callee_name(l.data[1]) == "core::slice::get" and l.path == (SOME, F0) and via_ok(l) for l in lv):
+        ok2 = True
+        for l in lv:
+            gbb, gt = l.data
+            kind, fl, _at = range_of(gbb, gt)
             st = fl.get("start")
-            if kind == "RangeFrom" and st is not None and is_cons(lf.data[1]["args"][0], c1, F1):
-                # start = n1 + 1 (checked)
+            recv = split_of(gt["args"][0]) == {s1}
+            add_ok = False
+            if kind == "RangeFrom" and st is not None:
                 sl = ub.trace(st, (), lambda tt: callee_name(tt) == "core::num::checked_add")
-                add_ok = bool(sl) and all(l.kind == "call" and callee_name(l.data[1]) == "core::num::checked_add" and l.path == (SOME, F0) and
-                                          is_cons(l.data[1]["args"][0], c1, F0) and const_int(ub, l.data[1]["args"][1]) == 1 for l in sl)
-                ok2 = add_ok
-                detail = "second length field parsed from rest1.get(start..), start = checked_add(n1, 1): %s" % add_ok
-    if not ok2:
-        for i, t in ub.calls_named("std::option::Option::and_then"):
-            ck = None
-            p = op_place(t["args"][1])
-            d = ub.single_def(p["l"]) if p else None
-            if d and d.kind == "assign" and d.node["rv"].get("agg") == "closure":
-                ck = d.node["rv"]["closure_key"]
-                ups = d.node["rv"]["ops"]
-            if ck in fx.fns:
-                cb = body_of(fx, ck)
-                for j, ct in cb.calls_named("core::slice::get"):
-                    p2 = op_place(ct["args"][1])
-                    d2 = cb.single_def(p2["l"]) if p2 is not None else None
-                    if d2 and d2.kind == "assign" and d2.node["rv"].get("agg") == "adt" and d2.node["rv"]["adt"].endswith("RangeFrom"):
-                        start_from_param = all(l.kind == "param" and l.data == 2 for l in cb.trace(d2.node["rv"]["ops"][0]))
-                        recv_upvar = all(l.kind == "param" and l.data == 1 for l in cb.trace(ct["args"][0]))
-                        # and_then receiver = checked_add(n1, 1)
-                        ca = def_call(ub, t["args"][0])
-                        add_ok = bool(ca) and callee_name(ca[1]) == "core::num::checked_add" and is_cons(ca[1]["args"][0], c1, F0) and const_int(ub, ca[1]["args"][1]) == 1
-                        up_ok = any(is_cons(u, c1, F1) for u in ups)
-                        ok2 = start_from_param and recv_upvar and add_ok and up_ok
-                        detail = "second length field parsed from rest1.get(checked_add(n1, 1)..): start from and_then argument %s, receiver captured rest1 %s, checked_add(n1,1) %s" % (
-                            start_from_param, up_ok, add_ok)
+                add_ok = bool(sl) and all(x.kind == "call" and callee_name(x.data[1]) == "core::num::checked_add" and x.path == (SOME, F0) and
+                                          is_len(x.data[1]["args"][0], s1) and const_int(ub, x.data[1]["args"][1]) == 1 for x in sl)
+            ok2 = ok2 and recv and add_ok
+            detail = "second length field parsed from rest1.get(start..): rest1 is the piece behind the first split: %s; start = checked_add(n1, 1): %s" % (recv, add_ok)
     ctx.inst("C20/D2", "second length field starts one separator after the type", ok2, detail, t2["at"])
-    # the length parser
-    if cons is None:
-        ctx.bad("C20/D2", "length parser", "no local function returning Result<(usize, &[u8])> is reachable from pae_unpack")
-    else:
-        cb = body_of(fx, cons["key"])
-        ctx.touch_body(cb)
-        sp = cb.calls_named("core::slice::splitn")
-        oksp = len(sp) == 1 and const_int(cb, sp[0][1]["args"][1]) == 2 and root_ids(cb, sp[0][1]["args"][0]) == frozenset([("param", 1, ())])
+    # the splits themselves: at most once, at the separator byte the encoder writes
+    for (si, (sbb, st_)) in enumerate(sorted(splits, key=lambda x: (x[0] != s1, x[0]))):
         sepb = None
-        if sp:
-            p = op_place(sp[0][1]["args"][2])
-            d = cb.single_def(p["l"]) if p else None
-            if d and d.kind == "assign" and d.node["rv"].get("agg") == "closure" and d.node["rv"]["closure_key"] in fx.fns:
-                clb = body_of(fx, d.node["rv"]["closure_key"])
-                for blk in clb.blocks:
-                    for st in blk["stmts"]:
-                        if st["k"] == "assign" and st["rv"]["k"] == "binop" and st["rv"]["op"] == "Eq":
-                            for o in (st["rv"]["a"], st["rv"]["b"]):
-                                v = const_int(clb, o)
-                                if v is not None:
-                                    sepb = v
-        n_l = cb.trace({"l": 0, "p": []}, (OK, F0, F0), STOP, TEXTRA)
-        r_l = cb.trace({"l": 0, "p": []}, (OK, F0, F1), STOP, TEXTRA)
-        pieces = bool(n_l) and bool(r_l) and all(l.kind == "call" and callee_name(l.data[1]) == "core::slice::splitn" and l.path == (ELEM,) for l in n_l + r_l)
-        usize = any("usize" in " ".join(t.get("generics", [])) for (i, t) in cb.calls_named("core::str::parse"))
-        ctx.inst("C20/D2", "length parser: decimal usize before the first separator, rest after it", oksp and pieces and usize and sepb is not None and sep_const is not None and chr(sepb) == sep_const,
-                 "splitn(2) on the input: %s; both results are pieces of that split: %s; parsed as usize: %s; separator byte %s vs pack separator %r" % (
-                     oksp, pieces, usize, sepb, sep_const), cons["at"])
+        p = op_place(st_["args"][2])
+        d = ub.single_def(p["l"]) if p else None
+        if d and d.kind == "assign" and d.node["rv"].get("agg") == "closure" and d.node["rv"]["closure_key"] in fx.fns:
+            clb = body_of(fx, d.node["rv"]["closure_key"])
+            for blk in clb.blocks:
+                for st in blk["stmts"]:
+                    if st["k"] == "assign" and st["rv"]["k"] == "binop" and st["rv"]["op"] == "Eq":
+                        for o in (st["rv"]["a"], st["rv"]["b"]):
+                            v = const_int(clb, o)
+                            if v is not None:
+                                sepb = v
+        two = const_int(ub, st_["args"][1]) == 2
+        ctx.inst("C20/D2", "length field %d: split at most once, at the separator the encoder writes" % (si + 1),
+                 two and sepb is not None and sep_const is not None and chr(sepb) == sep_const,
+                 "splitn(2): %s; separator byte %s vs pack separator %r" % (two, sepb, sep_const), st_["at"])
     # prefix
     sp = ub.calls_named("core::slice::strip_prefix")
     okp = False
@@ -257,7 +240,11 @@ def run(ctx):
         pl = ub.trace(sp[0][1]["args"][1], (), None, FMT)
         consts = sorted(l.data.get("str") for l in pl if l.kind == "const" and l.data.get("str") is not None)
         okp = prefix_const in consts and sep_const in consts and all(l.kind == "const" for l in pl) and root_ids(ub, sp[0][1]["args"][0]) == frozenset([("param", 1, ())])
-        ctx.inst("C20/D2", "decoder strips the prefix the encoder writes", okp, "strip_prefix argument built from constants %s" % consts, sp[0][1]["at"])
+        t1 = ub.blocks[s1]["term"]
+        l1 = ub.trace(t1["args"][0], (), STOP2, TEXTRA, False, None, (), (s1, 10 ** 9))
+        first_in = bool(l1) and all(l.kind == "call" and l.data[0] == sp[0][0] and l.path == (SOME, F0) and via_ok(l) for l in l1)
+        ctx.inst("C20/D2", "decoder strips the prefix the encoder writes", okp and first_in,
+                 "strip_prefix argument built from constants %s; the first length field is parsed from what is left: %s" % (consts, first_in), sp[0][1]["at"])
     else:
         ctx.bad("C20/D2", "decoder strips the prefix the encoder writes", "expected one strip_prefix call, found %d" % len(sp))
     # ---------------- D3
